@@ -234,7 +234,7 @@ def run(rep, ctx):
     repo = ctx["repo"]
     fn = [r"mp::BasicExprVisitor::.*", r"\(anon\)::ExprComparator::.*", r"\(anon\)::ExprHasher::.*",
           r"mp::Equal", EXPR_CLASSES + r"::.*", r"mp::internal::ExprIterator::.*",
-          r"std::hash::operator\(\)", r"\(anon\)::[A-Za-z_0-9]+", r"mp::Function::operator(==|!=)"]
+          r"std::hash::operator\(\)", r"\(anon\)::[A-Za-z_0-9]+", r"mp::Function::(operator(==|!=)|[A-Za-z_]+)"]
     jobs = [dict(unit="src/expr.cc", repo=repo, fn=fn, enum=[r"mp::expr::Kind"],
                  rec=[r"mp::.*::Impl", r"\(anon\)::Expr(Comparator|Hasher)"])]
     res = export_many(jobs)
@@ -480,9 +480,23 @@ def run(rep, ctx):
         if via:
             f1.fail("function-identity|%s" % op_, short_loc(f.loc), "Function::operator%s is defined through operator%s, which does not compare identity" % (op_, sorted(struct_failed)[0]))
             continue
-        foreign = [c for c in f.walk() if c["k"] in ("CallExpr", "CXXMemberCallExpr") or
+        # the operator's own body and the bodies of the private helpers of Function it calls
+        bodies, todo = [], [f]
+        while todo:
+            g_ = todo.pop()
+            if any(g_ is b_ for b_ in bodies):
+                continue
+            bodies.append(g_)
+            for c in g_.walk():
+                if c["k"] == "CXXMemberCallExpr" and (c.get("callee") or "").startswith("mp::Function::"):
+                    h_ = getattr(F, "_by_id", {}).get(c.get("calleeId")) or F.by_id.get(c.get("calleeId"))
+                    if h_ is not None and h_.cfg is not None:
+                        todo.append(h_)
+        own = {b_.id for b_ in bodies}
+        foreign = [c for b_ in bodies for c in b_.walk() if (c["k"] == "CallExpr") or (c["k"] == "CXXMemberCallExpr" and c.get("calleeId") not in own) or
                    (c["k"] == "CXXOperatorCallExpr" and not (c.get("callee") or "").startswith("mp::Function::operator"))]
-        members = [m for m in f.walk() if m["k"] == "MemberExpr" and m.get("name") != "impl_"]
+        helper_names = {b_.name for b_ in bodies}
+        members = [m for b_ in bodies for m in b_.walk() if m["k"] == "MemberExpr" and m.get("name") != "impl_" and m.get("name") not in helper_names]
         if foreign or members:
             what = sorted({(c.get("callee") or render(c))[:40] for c in foreign} | {"member " + (m.get("name") or "?") for m in members})
             f1.fail("function-identity|%s" % op_, short_loc(f.loc), "Function::operator%s reads %s: two distinct function objects can compare equal (their hashes, taken "
